@@ -128,6 +128,11 @@ def fault_part(ctx):
                     ctx.count('fault_' + k)
                 ctx.count('calls_compared', compare_with_twin(ctx, res, w))
                 ctx.count('runs_single_fault' if len(faults) == 1 else ('runs_fault_pair' if faults else 'runs_fault_free'))
+                if 'disable' in faults.values() or idx % 7 == 0:
+                    # the recorder lives on: recording is switched on again and the service is invoked once more
+                    res2 = fr.execute(prog, {}, recorder=res.recorder, spy=res.spy, box=res.box)
+                    ctx.count('calls_compared', compare_with_twin(ctx, res2, dict(w, second_invocation_after=fr.faults_json(faults))))
+                    ctx.count('second_invocations_on_the_same_recorder')
             finally:
                 fr.close(res)
         # recording disabled: pure pass-through, the cassette must see nothing
